@@ -13,6 +13,7 @@ CONSTANTS
   UseFollower = TRUE
   UseBounded = TRUE
   C0 = "c1"
+  UseGrpc = TRUE
   UseRace = TRUE
   MaxElect = 2
   StrandedKnown = TRUE
